@@ -865,7 +865,11 @@ impl<'tcx> Dumper<'tcx> {
             for (vi, v) in adt.variants().iter_enumerated() {
                 let mut fields = Vec::new();
                 for f in v.fields.iter() {
-                    let fty = tcx.type_of(f.did).instantiate_identity().skip_norm_wip();
+                    let fty_raw = tcx.type_of(f.did).instantiate_identity();
+                    // evaluate array lengths given by named constants (`[Card; DECK_LEN]` prints as `[Card; 49]`)
+                    let fty = tcx
+                        .try_normalize_erasing_regions(te, fty_raw)
+                        .unwrap_or_else(|_| tcx.type_of(f.did).instantiate_identity().skip_norm_wip());
                     fields.push(J::obj(vec![
                         ("name", J::s(f.name.to_string())),
                         ("ty", J::s(format!("{}", fty))),
